@@ -134,7 +134,7 @@ class HsmsRig:
         self.proto.events.message_received += lambda data: self.app_messages.append(data["message"])
 
     # quiescence: both library threads parked, nothing queued
-    def _quiet(self):
+    def _quiet(self, ignore_send_queue=False):
         disp = self.proto._thread
         rt, dt = disp._receiver_thread, disp._dispatcher_thread
         if rt is None or not rt.is_alive():
@@ -143,13 +143,13 @@ class HsmsRig:
         disp_parked = self.dtrig.waiting and not self.dtrig.is_set() and disp._dispatch_queue.qsize() == 0
         if dt is not None and not dt.is_alive():
             disp_parked = True
-        return recv_parked and disp_parked and self.proto._send_queue.empty()
+        return recv_parked and disp_parked and (ignore_send_queue or self.proto._send_queue.empty())
 
-    def settle(self, timeout=5.0):
+    def settle(self, timeout=5.0, ignore_send_queue=False):
         deadline = time.monotonic() + timeout
         stable = 0
         while time.monotonic() < deadline:
-            if self._quiet():
+            if self._quiet(ignore_send_queue):
                 stable += 1
                 if stable >= 3:
                     return True
